@@ -95,15 +95,15 @@ Proof.
 Qed.
 
 Definition var_like (e : exp) : Prop := match e with EName _ _ | EIndex _ _ _ => True | _ => False end.
-Definition node_ok (n : node) : Prop :=
+Definition node_ok (fx : fixes) (n : node) : Prop :=
   match n with
-  | NS (SLocal names _ _ es _) => length es <= S (length names)
+  | NS (SLocal names _ _ es _) => fx_surplus fx = true \/ length es <= S (length names)
   | NS (SAssign vars _ _) => Forall var_like vars
   | _ => True
   end.
-(* the first pass reaches every part of the tree: no local declaration with two or more surplus values, assignment
-   targets are names or table accesses (always so in an error-free parse) *)
-Definition traversal_ok (root : node) : Prop := forall n, within children_all root n -> node_ok n.
+(* the first pass reaches every part of the tree: no local declaration with two or more surplus values (before
+   C20-local-surplus), assignment targets are names or table accesses (always so in an error-free parse) *)
+Definition traversal_ok (fx : fixes) (root : node) : Prop := forall n, within children_all root n -> node_ok fx n.
 
 Lemma within_trans ch a b c : within ch a b -> within ch b c -> within ch a c.
 Proof. induction 1; auto. intros H2. eapply within_step; eauto. Qed.
@@ -113,9 +113,12 @@ Proof. intros H. eapply within_step; eauto. apply within_refl. Qed.
 Lemma in_firstn {A} (x : A) n l : In x (firstn n l) -> In x l.
 Proof. revert l; induction n as [|n IH]; intros [|y t]; cbn; try tauto. intros [H|H]; auto. Qed.
 
+Section Vis.
+Variable fx : fixes.
+
 (* a visited child is a child, or (assignment target) a grandchild *)
 Lemma children_vis_split n c :
-  In c (children_vis n) -> exists c0, In c0 (children_all n) /\ within children_all c0 c.
+  In c (children_vis fx n) -> exists c0, In c0 (children_all n) /\ within children_all c0 c.
 Proof.
   intros Hin.
   assert (D : In c (children_all n) -> exists c0, In c0 (children_all n) /\ within children_all c0 c)
@@ -128,23 +131,24 @@ Proof.
       * apply D. cbn [children_all]. apply in_or_app; auto.
       * exists (NE v). split; [cbn [children_all]; apply in_or_app; left; apply in_map; auto|].
         apply within_child. destruct v; cbn in Hc; try tauto. exact Hc.
-    + apply D. cbn [children_all]. apply in_map_iff in Hin as [e [<- He]]. apply in_map. eapply in_firstn; eauto.
+    + apply D. cbn [children_all]. destruct (fx_surplus fx); [exact Hin|].
+      apply in_map_iff in Hin as [e [<- He]]. apply in_map. eapply in_firstn; eauto.
   - destruct b as [stats ret l]. apply D. exact Hin.
 Qed.
 
-Lemma children_vis_within n c : In c (children_vis n) -> within children_all n c.
+Lemma children_vis_within n c : In c (children_vis fx n) -> within children_all n c.
 Proof. intros H. apply children_vis_split in H as [c0 [H0 W]]. eapply within_step; eauto. Qed.
 
 Lemma within_all_size a b : within children_all a b -> nsize b <= nsize a.
 Proof. induction 1 as [|a c0 b Hc Hw IH]; auto. apply children_all_smaller in Hc. lia. Qed.
 
-Lemma children_vis_smaller n c : In c (children_vis n) -> nsize c < nsize n.
+Lemma children_vis_smaller n c : In c (children_vis fx n) -> nsize c < nsize n.
 Proof.
   intros H. apply children_vis_split in H as [c0 [H0 W]].
   apply children_all_smaller in H0. apply within_all_size in W. lia.
 Qed.
 
-Lemma within_vis_all n m : within children_vis n m -> within children_all n m.
+Lemma within_vis_all n m : within (children_vis fx) n m -> within children_all n m.
 Proof.
   induction 1 as [|a c b Hc Hw IH]; [apply within_refl|].
   eapply within_trans; [apply children_vis_within; eauto|auto].
@@ -153,10 +157,11 @@ Qed.
 (* ------------------------------------------------------------------ the fuelled traversals against [within] *)
 Section Collect.
   Variable fclose : list N -> list N -> bool.
+  Variable elses : list loc.
 
   Lemma collect_iff fuel n r :
     nsize n <= fuel ->
-    (In r (collect fclose fuel n) <-> exists m, within children_vis n m /\ In r (local fclose m)).
+    (In r (collect fx fclose elses fuel n) <-> exists m, within (children_vis fx) n m /\ In r (local fx fclose elses m)).
   Proof.
     revert n; induction fuel as [|f IH]; intros n Hf.
     - pose proof (nsize_pos n). lia.
@@ -211,12 +216,13 @@ Section Collect.
 
   (* the published reports = the checks of the visited nodes *)
   Lemma run_block_iff b r :
-    In r (run_block fclose b) <-> exists m, within children_vis (NB b) m /\ In r (local fclose m).
+    In r (run_block fx fclose elses b) <-> exists m, within (children_vis fx) (NB b) m /\ In r (local fx fclose elses m).
   Proof. unfold run_block. rewrite dedup_in. apply collect_iff. lia. Qed.
 
-  Lemma run_block_once b : NoDup (run_block fclose b).
+  Lemma run_block_once b : NoDup (run_block fx fclose elses b).
   Proof. apply dedup_nodup. Qed.
 End Collect.
+End Vis.
 
 Lemma subnodes_iff fuel n m : nsize n <= fuel -> (In m (subnodes fuel n) <-> within children_all n m).
 Proof.
@@ -245,9 +251,12 @@ Definition target_shape (m : node) : Prop :=
 Lemma firstn_all_le {A} (l : list A) n : length l <= n -> firstn n l = l.
 Proof. revert n; induction l as [|x t IH]; intros [|n]; cbn; auto; try lia. intros H. rewrite IH; auto; lia. Qed.
 
+Section Complete.
+Variable fx : fixes.
+
 Lemma children_all_vis n c :
-  node_ok n -> In c (children_all n) ->
-  In c (children_vis n) \/ exists vars es l v, n = NS (SAssign vars es l) /\ c = NE v /\ In v vars /\ var_like v.
+  node_ok fx n -> In c (children_all n) ->
+  In c (children_vis fx n) \/ exists vars es l v, n = NS (SAssign vars es l) /\ c = NE v /\ In v vars /\ var_like v.
 Proof.
   intros Hok Hin. destruct n as [e|s|b].
   - left. destruct e; cbn [children_all] in Hin; cbn [children_vis]; auto.
@@ -257,17 +266,18 @@ Proof.
       * right. apply in_map_iff in Hin as [v [<- Hv]]. exists vars, es, l, v. repeat split; auto.
         cbn in Hok. rewrite Forall_forall in Hok. auto.
       * left. apply assign_children_in. auto.
-    + left. cbn in Hok. rewrite firstn_all_le; auto.
+    + left. cbn in Hok. destruct (fx_surplus fx); [exact Hin|].
+      destruct Hok as [Hok|Hok]; [discriminate|]. rewrite firstn_all_le; auto.
   - left. destruct b as [stats ret l]. exact Hin.
 Qed.
 
 Lemma visited_complete root m :
-  traversal_ok root -> within children_all root m -> ~ target_shape m -> within children_vis root m.
+  traversal_ok fx root -> within children_all root m -> ~ target_shape m -> within (children_vis fx) root m.
 Proof.
   remember (nsize root) as k eqn:Hk. revert root Hk m.
   induction k as [k IH] using lt_wf_ind. intros root Hk m Hok Hw Hns.
   inversion Hw as [|a c b Hc Hw']; subst; [apply within_refl|].
-  assert (Hokc : forall x, within children_all root x -> traversal_ok x).
+  assert (Hokc : forall x, within children_all root x -> traversal_ok fx x).
   { intros x Hx y Hy. apply Hok. eapply within_trans; eauto. }
   destruct (children_all_vis root c (Hok root (within_refl _ _)) Hc) as [Hv|[vars [es [l [v [-> [-> [Hv Hvl]]]]]]]].
   - eapply within_step; eauto.
@@ -278,10 +288,11 @@ Proof.
     destruct v; cbn in Hvl; try tauto.
     + inversion Hw' as [|a c2 b Hc2 Hw2]; subst; [exfalso; apply Hns; exact I|]. destruct Hc2.
     + inversion Hw' as [|a c2 b Hc2 Hw2]; subst; [exfalso; apply Hns; exact I|].
-      assert (Hin2 : In c2 (children_vis (NS (SAssign vars es l)))).
+      assert (Hin2 : In c2 (children_vis fx (NS (SAssign vars es l)))).
       { cbn [children_vis]. apply assign_children_in. right. eexists; split; [exact Hv|]. exact Hc2. }
       eapply within_step; [exact Hin2|].
       apply (IH (nsize c2)); auto.
       * apply children_all_smaller in Hc2. apply children_all_smaller in Hc. lia.
       * apply Hokc. eapply within_step; [exact Hc|]. apply within_child; auto.
 Qed.
+End Complete.
